@@ -372,6 +372,10 @@ func runConcTask(sh *concShared, tk cTask) string {
 		ints.Sort(cp)
 		fmt.Fprint(&sb, cp, ints.Max(append([]int{0}, a...)))
 	case "random":
+		// many calls so that concurrent callers overlap: a shared random source would interleave their draws
+		for r := 0; r < 40; r++ {
+			fmt.Fprint(&sb, graph.RandomMaximalClique(sh.graphs["sparse"], int64(tk.B+r)), graph.Graph6Encode(graph.RandomGraph(6, 0.5, int64(tk.A+r))))
+		}
 		g := graph.RandomGraph(7, 0.5, int64(tk.A))
 		fmt.Fprint(&sb, graph.Graph6Encode(g), graph.Graph6Encode(graph.RandomTree(6+tk.B, int64(tk.A))), graph.RandomMaximalClique(sh.graphs["dense"], int64(tk.B)))
 	case "generators":
